@@ -9,10 +9,8 @@ export VERIF_ROOT="$VERIF"
 PROP="$1"; TIER="${2:-${VERIF_TIER:-quick}}"
 cd "$VERIF/harness" || exit 2
 mkdir -p bin "$VERIF/.work"
-need_race=0; need_ov=0
-case "$PROP" in
-  C06|C09|C10|C11|C12|C13|C18|C15) need_race=1; need_ov=1;;
-esac
+# all three binaries are rebuilt on every invocation: plain, race detector, race detector + delay-injection overlay
+need_race=1; need_ov=1
 build() { # out, extra flags...
   local out="$1"; shift
   if ! go build -tags verif "$@" -o "$out" ./cmd/vcheck 2> "$VERIF/.work/build.$$.log"; then
